@@ -87,6 +87,19 @@ def main(chk):
                 p.set_quarter_duration(ms[-1].end.t, divs * 3)
                 p.add(score.Note(step="C", octave=4, id="%s_x" % p.id, voice=1, staff=1), ms[-1].end.t, ms[-1].end.t + 2)
                 p.add(score.Measure(number=len(ms) + 1), ms[-1].end.t, ms[-1].end.t + ts.beats * 4 * divs * 3 // ts.beat_type)
+                # notes sounding across the change of divisions (the statement names divisions changing inside a part and
+                # ties over barlines): one note written across it, and / or a tie chain whose links lie on both sides
+                e = ms[-1].end.t
+                if e - divs >= ms[-1].start.t:
+                    kind = rng.choice(["none", "one", "tie", "both"])
+                    if kind in ("one", "both"):
+                        p.add(score.Note(step="D", octave=4, id="%s_y" % p.id, voice=1, staff=1), e - divs, e + divs * 3)
+                    if kind in ("tie", "both"):
+                        b1 = score.Note(step="E", octave=4, id="%s_z1" % p.id, voice=1, staff=1)
+                        b2 = score.Note(step="E", octave=4, id="%s_z2" % p.id, voice=1, staff=1)
+                        p.add(b1, e - divs, e)
+                        p.add(b2, e, e + 2 * divs * 3)
+                        b1.tie_next, b2.tie_prev = b2, b1
             if rng.random() < 0.5 and not parts:      # tempo marks are global: first part only
                 for t, bpm in [(0, rng.choice([60, 100, 120]))] + ([(next(p.iter_all(score.Measure)).end.t, 75)] if rng.random() < 0.4 else []):
                     p.add(score.Tempo(bpm, "q"), t)
